@@ -61,14 +61,14 @@ package native
 //@ ensures[val] result1 != nil && fresh(result1) && result1.v == supplyAt(d, c.ID)
 //@ func (*nep17TokenNative).saveTotalSupply
 //@ requires c != nil && d != nil && supply != nil
-//@ modifies dao.kv(d, c.ID)["\x0b"], dao.kvBal(d, c.ID)["\x0b"], dao.kvOk(d, c.ID)["\x0b"]
+//@ modifies dao.kv(d, c.ID)["\x0b"], dao.kvBal(d, c.ID)["\x0b"], dao.kvOk(d, c.ID)["\x0b"], dao.kvVotes(d, c.ID)["\x0b"], dao.kvReg(d, c.ID)["\x0b"]
 //@ ensures[val] supplyAt(d, c.ID) == supply.v
 
 // Mint/burn: the account and the total supply move together.
 //@ func (*nep17TokenNative).addTokens
 //@ may-panic
 //@ requires c != nil && c.incBalance != nil && ic != nil && ic.DAO != nil && amount != nil
-//@ modifies dao.kv(ic.DAO, c.ID)[acctKeyOf(h)], dao.kvBal(ic.DAO, c.ID)[acctKeyOf(h)], dao.kvOk(ic.DAO, c.ID)[acctKeyOf(h)], dao.kv(ic.DAO, c.ID)["\x0b"], dao.kvBal(ic.DAO, c.ID)["\x0b"], dao.kvOk(ic.DAO, c.ID)["\x0b"]
+//@ modifies dao.kv(ic.DAO, c.ID)[acctKeyOf(h)], dao.kvBal(ic.DAO, c.ID)[acctKeyOf(h)], dao.kvOk(ic.DAO, c.ID)[acctKeyOf(h)], dao.kvVotes(ic.DAO, c.ID)[acctKeyOf(h)], dao.kvReg(ic.DAO, c.ID)[acctKeyOf(h)], dao.kv(ic.DAO, c.ID)["\x0b"], dao.kvBal(ic.DAO, c.ID)["\x0b"], dao.kvOk(ic.DAO, c.ID)["\x0b"], dao.kvVotes(ic.DAO, c.ID)["\x0b"], dao.kvReg(ic.DAO, c.ID)["\x0b"]
 //@ ensures[bal] amount.v != 0 ==> balAt(ic.DAO, c.ID, h) == old(balAt(ic.DAO, c.ID, h)) + amount.v
 //@ ensures[supply] amount.v != 0 ==> supplyAt(ic.DAO, c.ID) == old(supplyAt(ic.DAO, c.ID)) + amount.v
 //@ ensures[nonneg] amount.v != 0 && old(balAt(ic.DAO, c.ID, h)) >= 0 ==> balAt(ic.DAO, c.ID, h) >= 0
@@ -87,7 +87,7 @@ package native
 // failure it stays what it was; nothing but this account's record is written.
 //@ func (*nep17TokenNative).updateAccBalance
 //@ requires c != nil && c.incBalance != nil && ic != nil && ic.DAO != nil && amount != nil
-//@ modifies dao.kv(ic.DAO, c.ID)[acctKeyOf(acc)], dao.kvBal(ic.DAO, c.ID)[acctKeyOf(acc)], dao.kvOk(ic.DAO, c.ID)[acctKeyOf(acc)]
+//@ modifies dao.kv(ic.DAO, c.ID)[acctKeyOf(acc)], dao.kvBal(ic.DAO, c.ID)[acctKeyOf(acc)], dao.kvOk(ic.DAO, c.ID)[acctKeyOf(acc)], dao.kvVotes(ic.DAO, c.ID)[acctKeyOf(acc)], dao.kvReg(ic.DAO, c.ID)[acctKeyOf(acc)]
 //@ ensures[delta] result1 == nil ==> balAt(ic.DAO, c.ID, acc) == old(balAt(ic.DAO, c.ID, acc)) + amount.v
 //@ ensures[fail] result1 != nil ==> balAt(ic.DAO, c.ID, acc) == old(balAt(ic.DAO, c.ID, acc))
 //@ ensures[nonneg] result1 == nil && old(balAt(ic.DAO, c.ID, acc)) >= 0 ==> balAt(ic.DAO, c.ID, acc) >= 0
@@ -135,8 +135,8 @@ package native
 //@ requires c != nil && c.incBalance != nil && ic != nil && ic.DAO != nil && amount != nil
 //@ call postTransfer requires[args] arg2 == nil && arg3 == &h && arg4 == amount
 //@ call postTransfer requires[minted] balAt(ic.DAO, c.ID, h) == old(balAt(ic.DAO, c.ID, h)) + amount.v && supplyAt(ic.DAO, c.ID) == old(supplyAt(ic.DAO, c.ID)) + amount.v
-//@ ensures[zero] amount.v == 0 ==> ncalls(postTransfer) == 0 && unchanged(dao.kv(ic.DAO, c.ID)) && unchanged(dao.kvBal(ic.DAO, c.ID))
-//@ ensures[once] amount.v != 0 ==> ncalls(postTransfer) == 1
+//@ ensures[zero] old(amount.v) == 0 ==> ncalls(postTransfer) == 0 && unchanged(dao.kv(ic.DAO, c.ID)) && unchanged(dao.kvBal(ic.DAO, c.ID))
+//@ ensures[once] old(amount.v) != 0 ==> ncalls(postTransfer) == 1
 
 // The event: postTransfer emits exactly one Transfer notification, for the parties and the
 // amount it was given, before anything else it does.
@@ -163,7 +163,7 @@ package native
 // by the account's whole balance.
 //@ func (*NEO).modifyVoterTurnout
 //@ requires n != nil && d != nil && amount != nil
-//@ modifies dao.kv(d, n.ID)["\x01"], dao.kvBal(d, n.ID)["\x01"], dao.kvOk(d, n.ID)["\x01"]
+//@ modifies dao.kv(d, n.ID)["\x01"], dao.kvBal(d, n.ID)["\x01"], dao.kvOk(d, n.ID)["\x01"], dao.kvVotes(d, n.ID)["\x01"], dao.kvReg(d, n.ID)["\x01"]
 //@ ensures[absent] (result != nil) == !old(has(dao.kv(d, n.ID), "\x01"))
 //@ ensures[added] result == nil ==> has(dao.kv(d, n.ID), "\x01") && dao.kv(d, n.ID)["\x01"] == old(dao.kv(d, n.ID)["\x01"]) + amount.v
 //@ ensures[kept] result != nil ==> unchanged(dao.kv(d, n.ID))
@@ -172,6 +172,50 @@ package native
 //@ may-panic
 //@ opt frame off
 //@ opt callbacks pure
+//@ opt stable ic.DAO
 //@ requires n != nil && ic != nil && ic.DAO != nil
 //@ call modifyVoterTurnout requires[turnout] (acc.VoteTo == nil) != (pub == nil) && arg2.v == ite(pub == nil, -(&acc.Balance).v, (&acc.Balance).v) && ncalls(modifyVoterTurnout) == 0
 //@ call distributeGas requires[counted] ncalls(modifyVoterTurnout) == ite((acc.VoteTo == nil) != (pub == nil), 1, 0)
+
+// ================= C05: candidate tallies =================
+// A candidate's vote tally is a reading of its stored record (dao.kvVotes). Decoding a record
+// yields that tally; registering (again) keeps it; moving an account's votes changes the tally
+// of the candidate it votes for by exactly the amount given.
+//@ func (*candidate).FromBytes
+//@ assumed
+//@ requires[nopanic] c != nil
+//@ modifies c.Registered, (&c.Votes).v
+//@ ensures result == c && (&c.Votes).v == dao.candVotes(data) && c.Registered == dao.candReg(data)
+
+//@ func (*NEO).RegisterCandidateInternal
+//@ may-panic
+//@ opt frame off
+//@ requires n != nil && ic != nil && ic.DAO != nil
+//@ call PutStorageConvertible requires[record] is(arg3, *candidate) && arg3.(*candidate) != nil && arg1 == n.ID
+//@ call PutStorageConvertible requires[flag] arg3.(*candidate).Registered
+//@ call PutStorageConvertible requires[tally] same(arg2, key) && (&arg3.(*candidate).Votes).v == ite(si == nil, 0, dao.candVotes(si))   // si: the record read under the same key just before
+
+//@ func (*NEO).ModifyAccountVotes
+//@ may-panic
+//@ opt frame off
+//@ requires n != nil && acc != nil && d != nil && value != nil
+//@ call PutStorageConvertible requires[tally] is(arg3, *candidate) && arg1 == n.ID && same(arg2, key) && (&arg3.(*candidate).Votes).v == dao.candVotes(si) + value.v && arg3.(*candidate).Registered == dao.candReg(si)
+//@ call dropCandidateIfZero requires[tally] (&arg4.Votes).v == dao.candVotes(si) + value.v && arg4.Registered == dao.candReg(si)
+//@ ensures[novote] old(acc.VoteTo == nil) ==> result == nil && ncalls(PutStorageConvertible) == 0 && ncalls(dropCandidateIfZero) == 0
+
+// A candidate record is dropped only when it is unregistered and holds no votes.
+//@ func makeValidatorKey
+//@ assumed
+//@ pure
+//@ ensures fresh(result)
+//@ func makeVoterKey
+//@ assumed
+//@ pure
+//@ ensures fresh(result)
+//@ func (*NEO).dropCandidateIfZero
+//@ may-panic
+//@ requires n != nil && d != nil && c != nil && cache != nil
+//@ modifies dao.kv(d, n.ID), dao.kvBal(d, n.ID), dao.kvOk(d, n.ID), dao.kvVotes(d, n.ID), dao.kvReg(d, n.ID), cache.gasPerVoteCache
+//@ ensures[untouched] !result ==> unchanged(dao.kv(d, n.ID)) && unchanged(dao.kvVotes(d, n.ID)) && unchanged(dao.kvReg(d, n.ID))
+//@ ensures[kept] result == old(!c.Registered && (&c.Votes).v == 0)
+//@ ensures[nodelete] !result ==> ncalls(DeleteStorageItem) == 0
